@@ -41,12 +41,16 @@ func vhGenLog(n int64, tag byte) []byte {
 	return b.Bytes()[:n]
 }
 
-func vhFollower(F, L, P int64) *Server {
+func vhFollower(F, L, P, Q int64) *Server {
 	vhLeaderLog = vhGenLog(L, 'L')
 	// follower: the leader's first P bytes, then a log whose value bytes differ
 	alt := vhGenLog(F, 'F')
 	flog := append([]byte(nil), alt...)
 	copy(flog, vhLeaderLog[:P])
+	if Q < F && Q < L {
+		// the logs agree again from Q on (as far as both reach)
+		copy(flog[Q:], vhLeaderLog[Q:])
+	}
 	if P < F && P < L && flog[P] == vhLeaderLog[P] {
 		panic("harness: byte P does not differ")
 	}
